@@ -306,6 +306,7 @@ REGISTRY["C16"] = {
     "tests": [
         {"name": "TestC16Value", "checks": {"quick": 6000, "thorough": 400000}, "shards": {"quick": 8, "thorough": 16}},
         {"name": "TestC16Engine", "checks": {"quick": 150, "thorough": 6000}, "shards": {"quick": 8, "thorough": 16}},
+        {"name": "FuzzC16ValueFrom", "mode": "fuzz", "tiers": ["thorough"], "checks": {"thorough": 120}, "shards": {"thorough": 1}, "limit": {"thorough": 900}},
     ],
 }
 
@@ -326,6 +327,8 @@ REGISTRY["C15"] = {
     "tests": [
         {"name": "TestC15Files", "mode": "plain", "shards": {"quick": 1, "thorough": 1}},
         {"name": "TestC15Generated", "checks": {"quick": 150, "thorough": 6000}, "shards": {"quick": 12, "thorough": 16}},
+        # native fuzzing (thorough only): "checks" is the fuzz time in seconds
+        {"name": "FuzzC15Parse", "mode": "fuzz", "tiers": ["thorough"], "checks": {"thorough": 180}, "shards": {"thorough": 1}, "limit": {"thorough": 900}},
     ],
 }
 
